@@ -369,3 +369,43 @@ func oidArcs(c []byte) []int {
 	}
 	return out
 }
+
+// recodeName writes an RDNSequence anew with every PrintableString attribute value as a UTF8String of the
+// same characters: the same name for every comparison of RFC 5280 section 7.1, other octets.
+func recodeName(name []byte) ([]byte, bool) {
+	tag, body, rest, ok := readTLV(name)
+	if !ok || tag != 0x30 || len(rest) != 0 {
+		return nil, false
+	}
+	var out []byte
+	changed := false
+	for len(body) > 0 {
+		st, set, r2, ok := readTLV(body)
+		if !ok || st != 0x31 {
+			return nil, false
+		}
+		body = r2
+		var setOut []byte
+		for len(set) > 0 {
+			at, atv, r3, ok := readTLV(set)
+			if !ok || at != 0x30 {
+				return nil, false
+			}
+			set = r3
+			ot, oid, val, ok := readTLV(atv)
+			if !ok || ot != 0x06 {
+				return nil, false
+			}
+			vt, vc, r4, ok := readTLV(val)
+			if !ok || len(r4) != 0 {
+				return nil, false
+			}
+			if vt == 0x13 {
+				vt, changed = 0x0c, true
+			}
+			setOut = append(setOut, tlv(0x30, append(tlv(0x06, oid), tlv(vt, vc)...))...)
+		}
+		out = append(out, tlv(0x31, setOut)...)
+	}
+	return tlv(0x30, out), changed
+}
